@@ -32,11 +32,11 @@ EXTENDS Session, IOUtils
 Traces == JsonDeserialize(IOEnv.TRACE_FILE)
 
 VARIABLES tid, l
-tvars == <<chk, sess, hist, calls, tid, l>>
+tvars == <<chk, sess, hist, calls, parked, tid, l>>
 
 Ev == Traces[tid][l]
 More == l <= Len(Traces[tid])
-Step == l' = l + 1 /\ UNCHANGED tid
+Step == l' = l + 1 /\ UNCHANGED <<tid, parked>>
 Sizes(c) == [i \in 1..NChecks |-> Cardinality(c[i])]
 LastOf(s) == s[Len(s)]
 
@@ -51,7 +51,7 @@ TrOpen ==
              THEN [kind |-> "reader", api |-> "reader", ds |-> [rows |-> Ev.rows, fault |-> 0], mode |-> Ev.mode,
                    limit |-> IF Ev.until < 0 THEN None ELSE Some(Ev.until), end |-> "close", k |-> 0,
                    started |-> FALSE, pos |-> 0, out |-> <<>>, acc |-> 0, rej |-> 0, yielded |-> 0, exc |-> NoErr,
-                   sid |-> Ev.sid]
+                   resumed |-> FALSE, createdAt |-> 0, sid |-> Ev.sid]
              ELSE [kind |-> "writer", ds |-> [rows |-> Ev.rows, fault |-> 0], closes |-> TRUE, pos |-> 0, line |-> 0,
                    out |-> <<>>, acc |-> 0, rej |-> 0, sid |-> Ev.sid]
   /\ calls' = <<>> /\ UNCHANGED hist /\ Step
